@@ -4,85 +4,114 @@ From Coq Require Import NArith List Bool Lia PeanoNat.
 From Coq Require Import ZifyN ZifyBool ZifyNat.
 Import ListNotations.
 From DV Require Import Base.Outcome Base.Bytes Base.Lex Base.Names.
-From DV Require Import C17.Model C18.Model C14.Gen C14.Model C14.Proofs.
+From DV Require Import C17.Model C17.Proofs C18.Model C14.Gen C14.Model C14.Proofs.
 Local Open Scope N_scope.
 
 (* ------------------------------------------------------------ signature times *)
-Theorem sig_time_ok_spec : sig_time_is_canonical = true -> forall now inc exp,
-  sig_time_ok now inc exp = true <-> inc <= now <= exp.
+Lemma serial_le_spec a b : u32 a -> u32 b -> (serial_le a b = true <-> rfc_lt a b \/ a = b).
 Proof.
-  intros X now inc exp. unfold sig_time_ok, ts_cmp. rewrite X.
-  unfold sig_expired_op, sig_early_op, op_holds, serial_canonical_cmp.
-  destruct (N.compare_spec now exp) as [C1|C1|C1]; destruct (N.compare_spec now inc) as [C2|C2|C2]; cbn; split; intros H; try discriminate; try reflexivity; lia.
+  intros Ha Hb. pose proof (cmp_is_rfc1982 a b Ha Hb) as (L & G & E). unfold serial_le.
+  destruct (serial_partial_cmp a b) as [[[| |]|]| | |] eqn:C; split; intros H; try discriminate; try reflexivity.
+  - right. apply E. reflexivity.
+  - left. apply L. reflexivity.
+  - destruct H as [H|H]; [apply L in H|apply E in H]; discriminate.
+  - destruct H as [H|H]; [apply L in H|apply E in H]; discriminate.
+  - destruct H as [H|H]; [apply L in H|apply E in H]; discriminate.
+  - destruct H as [H|H]; [apply L in H|apply E in H]; discriminate.
+  - destruct H as [H|H]; [apply L in H|apply E in H]; discriminate.
 Qed.
 
-(* inside the window in which plain and serial comparison cannot differ the
-   check is RFC 4034 3.1.5 / RFC 1982: not after expiration, not before inception *)
-Theorem sig_time_is_rfc1982_in_window : sig_time_is_canonical = true -> forall now inc exp,
-  now < 4294967296 -> inc < 4294967296 -> exp < 4294967296 ->
-  (now <= exp -> exp - now < 2147483648) -> (exp <= now -> now - exp < 2147483648) ->
-  (now <= inc -> inc - now < 2147483648) -> (inc <= now -> now - inc < 2147483648) ->
-  (sig_time_ok now inc exp = true <-> ~ rfc_gt now exp /\ ~ rfc_lt now inc).
+Lemma serial_ge_spec a b : u32 a -> u32 b -> (serial_ge a b = true <-> rfc_gt a b \/ a = b).
 Proof.
-  intros X now inc exp Hn Hi He W1 W2 W3 W4. rewrite (sig_time_ok_spec X). unfold rfc_gt, rfc_lt. lia.
+  intros Ha Hb. pose proof (cmp_is_rfc1982 a b Ha Hb) as (L & G & E). unfold serial_ge.
+  destruct (serial_partial_cmp a b) as [[[| |]|]| | |] eqn:C; split; intros H; try discriminate; try reflexivity.
+  - right. apply E. reflexivity.
+  - destruct H as [H|H]; [apply G in H|apply E in H]; discriminate.
+  - left. apply G. reflexivity.
+  - destruct H as [H|H]; [apply G in H|apply E in H]; discriminate.
+  - destruct H as [H|H]; [apply G in H|apply E in H]; discriminate.
+  - destruct H as [H|H]; [apply G in H|apply E in H]; discriminate.
+  - destruct H as [H|H]; [apply G in H|apply E in H]; discriminate.
 Qed.
 
-(* ... but not in general: a signature whose expiration lies more than 2^31
-   seconds ahead is "in the past" under serial arithmetic and still accepted *)
-Theorem sig_time_rfc1982_refuted : sig_time_is_canonical = true ->
-  exists now inc exp, now < 4294967296 /\ inc < 4294967296 /\ exp < 4294967296 /\
-    sig_time_ok now inc exp = true /\ rfc_gt now exp.
+(* RFC 4034 3.1.5 with RFC 1982 arithmetic: accepted iff now is not after the
+   expiration and not before the inception, both comparisons being defined *)
+Theorem sig_time_ok_spec : sig_time_is_canonical = false -> forall now inc exp,
+  u32 now -> u32 inc -> u32 exp ->
+  (sig_time_ok now inc exp = true <-> (rfc_lt now exp \/ now = exp) /\ (rfc_gt now inc \/ now = inc)).
 Proof.
-  intros X. exists 1790000000, 0, 4294967295.
-  split; [reflexivity|]. split; [reflexivity|]. split; [reflexivity|]. split.
-  - apply (sig_time_ok_spec X). lia.
-  - unfold rfc_gt. left. lia.
+  intros X now inc exp Hn Hi He. unfold sig_time_ok. rewrite X.
+  rewrite andb_true_iff, (serial_le_spec now exp Hn He), (serial_ge_spec now inc Hn Hi). reflexivity.
 Qed.
 
-Example sig_time_ex :
+(* the verdict depends only on the differences: shifting now, inception and
+   expiration by the same amount (e.g. across the 2^32 wrap) does not change it *)
+Theorem sig_time_shift_invariant : sig_time_is_canonical = false -> forall now inc exp k,
+  u32 now -> u32 inc -> u32 exp ->
+  sig_time_ok ((now + k) mod M32) ((inc + k) mod M32) ((exp + k) mod M32) = sig_time_ok now inc exp.
+Proof.
+  intros X now inc exp k Hn Hi He. unfold sig_time_ok, serial_le, serial_ge. rewrite X.
+  rewrite (cmp_shift_invariant now exp k Hn He), (cmp_shift_invariant now inc k Hn Hi). reflexivity.
+Qed.
+
+(* expired, not yet valid, or undefined (2^31 apart): rejected *)
+Theorem sig_time_rejects : sig_time_is_canonical = false -> forall now inc exp,
+  u32 now -> u32 inc -> u32 exp ->
+  rfc_gt now exp \/ rfc_lt now inc \/ (now + 2147483648) mod M32 = exp \/ (now + 2147483648) mod M32 = inc ->
+  sig_time_ok now inc exp = false.
+Proof.
+  intros X now inc exp Hn Hi He H.
+  destruct (sig_time_ok now inc exp) eqn:E; [|reflexivity]. exfalso.
+  apply (sig_time_ok_spec X now inc exp Hn Hi He) in E. unfold rfc_gt, rfc_lt, u32, M32 in *. lia.
+Qed.
+
+Example sig_time_ex : sig_time_is_canonical = false ->
   sig_time_ok 1000 900 1100 = true /\ sig_time_ok 1000 1001 1100 = false /\ sig_time_ok 1000 900 999 = false /\
-  sig_time_ok 1000 1000 1000 = true.
-Proof. vm_compute. repeat split. Qed.
+  sig_time_ok 1000 1000 1000 = true /\
+  sig_time_ok 256 4294963200 65536 = true /\            (* inception 0xFFFFF000, now 0x100, expiration 0x10000: straddles the wrap *)
+  sig_time_ok 1790000000 0 4294967295 = false /\         (* expiration more than 2^31 ahead = in the past *)
+  sig_time_ok 0 0 2147483648 = false.                     (* undefined comparison *)
+Proof. intros X. unfold sig_time_ok. rewrite X. vm_compute. repeat split. Qed.
 
 (* ------------------------------------------------------------ check_sig *)
-Theorem check_sig_sound : sig_time_is_canonical = true -> forall s, check_sig s = true ->
+Theorem check_sig_sound : forall s, check_sig s = true ->
   name_eqb (s_sig_owner s) (s_owner s) = true /\ s_same_class s = true /\
   ends_with (s_owner s) (s_signer s) = true /\          (* the signer is an ancestor of (or is) the owner *)
   s_type_covered s = s_rtype s /\
   s_sig_labels s <= N.of_nat (length (s_owner s)) /\    (* labels field not above the owner's label count *)
-  s_inception s <= s_now s <= s_expiration s /\
+  sig_time_ok (s_now s) (s_inception s) (s_expiration s) = true /\
   name_eqb (s_signer s) (s_key_name s) = true /\ s_sig_alg s = s_key_alg s /\ s_sig_tag s = s_key_tag s /\
   s_zone_key s = true /\ s_crypto_ok s = true.
 Proof.
-  intros X s. unfold check_sig.
+  intros s. unfold check_sig.
   destruct (name_eqb (s_sig_owner s) (s_owner s)); cbn [negb orb]; [|discriminate].
   destruct (s_same_class s); cbn [negb]; [|discriminate].
   destruct (ends_with (s_owner s) (s_signer s)); cbn [negb]; [|discriminate].
   destruct (N.eqb_spec (s_type_covered s) (s_rtype s)) as [Ht|]; cbn [negb]; [|discriminate].
   unfold sig_labels_reject_op, op_holds.
-  destruct (N.compare_spec (N.of_nat (length (s_owner s))) (s_sig_labels s)) as [Hl|Hl|Hl]; try discriminate.
-  - destruct (sig_time_ok (s_now s) (s_inception s) (s_expiration s)) eqn:T; cbn [negb]; [|discriminate].
-    apply (sig_time_ok_spec X) in T.
-    destruct (name_eqb (s_signer s) (s_key_name s)); cbn [negb orb]; [|discriminate].
+  assert (K : forall b, (if negb (sig_time_ok (s_now s) (s_inception s) (s_expiration s)) then false else b) = true ->
+              sig_time_ok (s_now s) (s_inception s) (s_expiration s) = true /\ b = true).
+  { intros b. destruct (sig_time_ok _ _ _); cbn [negb]; [auto|discriminate]. }
+  assert (Fin : (if negb (name_eqb (s_signer s) (s_key_name s)) || negb (s_sig_alg s =? s_key_alg s) || negb (s_sig_tag s =? s_key_tag s)
+                 then false else if negb (s_zone_key s) then false else s_crypto_ok s) = true ->
+                name_eqb (s_signer s) (s_key_name s) = true /\ s_sig_alg s = s_key_alg s /\ s_sig_tag s = s_key_tag s /\
+                s_zone_key s = true /\ s_crypto_ok s = true).
+  { destruct (name_eqb (s_signer s) (s_key_name s)); cbn [negb orb]; [|discriminate].
     destruct (N.eqb_spec (s_sig_alg s) (s_key_alg s)); cbn [negb orb]; [|discriminate].
     destruct (N.eqb_spec (s_sig_tag s) (s_key_tag s)); cbn [negb orb]; [|discriminate].
-    destruct (s_zone_key s); cbn [negb]; [|discriminate].
-    intros C. repeat split; try assumption; try reflexivity; lia.
-  - destruct (sig_time_ok (s_now s) (s_inception s) (s_expiration s)) eqn:T; cbn [negb]; [|discriminate].
-    apply (sig_time_ok_spec X) in T.
-    destruct (name_eqb (s_signer s) (s_key_name s)); cbn [negb orb]; [|discriminate].
-    destruct (N.eqb_spec (s_sig_alg s) (s_key_alg s)); cbn [negb orb]; [|discriminate].
-    destruct (N.eqb_spec (s_sig_tag s) (s_key_tag s)); cbn [negb orb]; [|discriminate].
-    destruct (s_zone_key s); cbn [negb]; [|discriminate].
-    intros C. repeat split; try assumption; try reflexivity; lia.
+    destruct (s_zone_key s); cbn [negb]; [|discriminate]. auto. }
+  destruct (N.compare_spec (N.of_nat (length (s_owner s))) (s_sig_labels s)) as [Hl|Hl|Hl]; try discriminate;
+    intros H; apply K in H as [T H]; apply Fin in H; repeat split; try tauto; try reflexivity; lia.
 Qed.
 
-(* an expired or not yet valid signature never validates, whatever the key says *)
-Theorem check_sig_rejects_outside_validity : sig_time_is_canonical = true -> forall s,
-  s_expiration s < s_now s \/ s_now s < s_inception s -> check_sig s = false.
+(* a signature outside its validity period never validates, whatever the key says *)
+Theorem check_sig_rejects_outside_validity : sig_time_is_canonical = false -> forall s,
+  u32 (s_now s) -> u32 (s_inception s) -> u32 (s_expiration s) ->
+  rfc_gt (s_now s) (s_expiration s) \/ rfc_lt (s_now s) (s_inception s) -> check_sig s = false.
 Proof.
-  intros X s H. destruct (check_sig s) eqn:E; [|reflexivity].
-  apply (check_sig_sound X) in E. lia.
+  intros X s Hn Hi He H. destruct (check_sig s) eqn:E; [|reflexivity].
+  apply check_sig_sound in E. destruct E as (_ & _ & _ & _ & _ & T & _).
+  rewrite (sig_time_rejects X _ _ _ Hn Hi He) in T; [discriminate|tauto].
 Qed.
 
 Example check_sig_ex :
